@@ -179,10 +179,12 @@ Lemma removelast_app_one {A} (l : list A) x : removelast (l ++ [x]) = l.
 Proof. apply removelast_last. Qed.
 
 Theorem type_file_in_namespace_folder strop ext stem outdir t :
+  stem_valid stem = true ->
   removelast (out_path strop true ext outdir t) = outdir ++ map strop (t_ns t) /\
   removelast (ns_path strop ext stem outdir (t_ns t)) = outdir ++ map strop (t_ns t).
 Proof.
-  unfold out_path, make_path, ns_path, pstrop. rewrite !app_assoc, !removelast_last. split; reflexivity.
+  intros V. rewrite (ns_path_valid strop ext stem outdir (t_ns t) V).
+  unfold out_path, make_path, pstrop. rewrite !app_assoc, !removelast_last. split; reflexivity.
 Qed.
 
 (* ---- fold witness (class -> _class): the pre-fix behaviour is documented in History/C11_history.v ---------- *)
